@@ -230,7 +230,7 @@ def m2d_cli(rep, svh, rng, gates, names, count, quick):
             want += [l[2:] for l in out if l.startswith('R ')]
         cpath = os.path.join(core.BUILD, 'c04_circuit_%d.stim' % os.getpid())
         open(cpath, 'w').write(text + '\n')
-        for fin in (['01', 'b8'] if quick else ['01', 'b8', 'r8', 'hits', 'dets']):
+        for fin in (rng.sample(['01', 'b8', 'r8', 'hits', 'dets'], 2) if quick else ['01', 'b8', 'r8', 'hits', 'dets']):
             data = docformats.save(fin, rows)
             for variant in ('append', 'obs_out', 'plain'):
                 fout = rng.choice(['01', 'b8', 'hits', 'r8', 'dets'])
@@ -333,7 +333,7 @@ def routing_matrix(rep, rng, gates, count, quick):
         if nd == 0:
             continue
         seed = rng.randrange(1 << 30)
-        for shots in ([64, 70] if quick else [1, 63, 64, 65, 256, 1025]):
+        for shots in ([64, rng.choice([1, 63, 65, 70, 256, 1025])] if quick else [1, 63, 64, 65, 256, 1025]):
             rc, so, se = core.run_stim(['detect', '--shots', str(shots), '--seed', str(seed), '--append_observables'], text.encode())
             if rc != 0:
                 rep.violation('stim detect', 'reject-valid', text, se.decode()[-400:])
@@ -413,7 +413,7 @@ def streaming_cases(rep, svh, rng, count, quick):
                 body.append('OBSERVABLE_INCLUDE(%d) rec[-%d]' % (rng.choice([0, 1, 3]), rng.choice([1, 2])))
         reps = rng.choice([1, 3, 40, 130])
         text = 'REPEAT %d {\n%s\n}\nOBSERVABLE_INCLUDE(0) rec[-1]' % (reps, '\n'.join('    ' + l for l in body)) if reps > 1 else '\n'.join(body + ['OBSERVABLE_INCLUDE(0) rec[-1]'])
-        for shots in ([64, 65, 300] if quick else [1, 63, 64, 65, 256, 257, 1025]):
+        for shots in ([64, 65, rng.choice([1, 63, 257, 300, 1025])] if quick else [1, 63, 64, 65, 256, 257, 1025]):
             for fmt in FORMATS:
                 if fmt == 'ptb64' and shots % 64:
                     continue
